@@ -431,6 +431,16 @@ PowPow == {Bn(c, Bn("**", Bn("**", b, m), n), r) : c \in {"=", "<", ">="}, b \in
 Capture == {Qn(q, "i", SetOf(<<Fld(VarR("@k"), "lo"), NumA("0")>>), Qn(q2, "k", Rng("[", VarR("@i"), NumA("9"), "]"), Bn(">", Idx(Own("xs"), K), NumA("0")))) : q \in {"forall", "exists"}, q2 \in {"forall", "exists"}}
            \cup {Qn(q, "b", SetOf(<<Qn("exists", "k", Own("xs"), Bn(">", K, NumA("0"))), Own("ok")>>), Qn("forall", "k", Own("ys"), Bn("or", Bn("<", K, NumA("9")), VarR("@b")))) : q \in {"forall", "exists"}}
            \cup {Un("not", Qn("exists", "i", SetOf(<<Fld(VarR("@k"), "lo"), Own("x")>>), Qn("forall", "k", Own("xs"), Bn(">", K, VarR("@i")))))}
+(* ---- membership tests whose left side has another type than the members (`in` asks nothing of its left operand; the test is
+        simply false), with sets that have ONE member - as written, after duplicates collapse, after the members fold ---- *)
+OneSets == {SetOf(<<NumA("1")>>), SetOf(<<NumA("2"), NumA("2")>>), SetOf(<<Bn("+", NumA("1"), NumA("1"))>>), SetOf(<<BoolA("True")>>), SetOf(<<StrA("$s")>>),
+            SetOf(<<Own("y")>>), SetOf(<<NumA("1"), Bn("-", NumA("2"), NumA("1"))>>)}
+MixIn == {Bn("and", Bn("=", Own("s"), StrA("$s")), Bn("in", Own("s"), c)) : c \in OneSets}
+         \cup {Bn("and", Bn("in", Own("p"), c), Bn(">", Own("p"), NumA("3"))) : c \in OneSets}
+         \cup {Bn("or", Bn("in", Own("p"), c), Un("not", Own("p"))) : c \in OneSets}
+         \cup {Bn("in", Bn(">", Own("x"), NumA("1")), c) : c \in OneSets}
+         \cup {Bn("in", a, c) : a \in {Own("x"), NumA("1"), StrA("$s"), BoolA("True"), Call("len", Own("xs")), Call("str", Own("x"))}, c \in OneSets}
+         \cup {Un("not", Bn("in", Own("x"), c)) : c \in OneSets}
 RandTerms == {IF i % 3 = 0 THEN RNum(RandDepth) ELSE RBool(RandDepth) : i \in 1..RandN}
 
 Members ==
@@ -459,6 +469,7 @@ Members ==
     [] Family = "barealias" -> BareAlias
     [] Family = "powpow"  -> PowPow
     [] Family = "capture" -> Capture
+    [] Family = "mixin"   -> MixIn
     [] OTHER -> {}
 
 TInit == cst \in Members
